@@ -1,7 +1,8 @@
 (* C12 -- lemmas about Model/Verify.v: the number of problems reported under every label set
    equals the declarative count of Model/VerifySpec.v. *)
 From Coq Require Import Lia ZifyBool.
-From CR Require Import Model.Verify Model.VerifySpec.
+From CR Require Import Model.Verify.
+From CR Require Import Model.VerifySpec.
 Local Open Scope Z_scope.
 
 (* ------------------------------------------------------------------ equalities *)
